@@ -476,6 +476,15 @@ func c20Leak(p *chk.Prog, r *chk.Report) {
 				return b != nil && f.ObjOf(b["R"]) == res && derivesFromField(f, b["SRC"], fld)
 			})
 			ok = len(cp) == 1 && definedBy(g, "make(T, len(SRC))")(rr[0])
+			if !ok {
+				// the library spellings of "a fresh slice with the same elements"
+				val := f.Resolve(rr[0])
+				for _, pat := range []string{"slices.Clone(SRC)", "append(T(nil), SRC...)", "append(T{}, SRC...)"} {
+					if b := f.MatchNew(pat, val); b != nil && derivesFromField(f, b["SRC"], fld) {
+						ok = true
+					}
+				}
+			}
 		}
 		x.Check(c.recv+"."+c.name+":returns-copy", f.Pos(), ok, "", c.name+" does not return a fresh copy of "+c.field)
 	}
